@@ -498,6 +498,12 @@ func Run(t *testing.T, cfg Config, body func(c *Case)) {
 					if only != nil && !only[idx] {
 						continue
 					}
+					mu.Lock()
+					tooManyStuck := len(rep.Stuck) > 48
+					mu.Unlock()
+					if tooManyStuck {
+						break // far beyond any tolerance: the run is decided by what the abandoned cases have in common
+					}
 					os.WriteFile(cur, []byte(strconv.Itoa(idx)), 0o644)
 					c := &Case{Index: idx, R: NewRand(seed, uint64(idx)), T: t, Log: NewLog()}
 					finished := make(chan struct{})
